@@ -35,6 +35,7 @@ class Scenario:
     self.constructed = {}      # python class -> the composite objects made on the translated paths, in translation order
     self.proto_factories = {}  # python class -> callable making a real instance: where attributes the scenario does not bind are looked up
     self.auto_bound = []       # (object name, attribute, model name, model kind) bound that way
+    self.default_lists = None  # the MLists pool in which an empty list attribute that the scenario does not bind is allocated
     self.notes = []
 
   def add(self, model):
